@@ -34,6 +34,7 @@ def configure(cfg, r, tier):
     cfg["profile"] = r.choice(["ints", "ints", "strs", "mixed"])
     cfg["steps"] = r.randint(8, 30) if tier == "quick" else r.randint(15, 60)
     cfg["p_replica"] = r.choice([0.2, 0.35])
+    cfg["numeric_attrs"] = True
     cfg["n_measures"] = r.choice([4, 6, 8])
     t = cfg["ops"]["H"]
     for op in ("cleanup", "convert_labels_to_integers", "largest_connected_hypergraph", "clear", "freeze"):
@@ -109,6 +110,10 @@ def build_replica(xgi, r, m, f, g):
                 B.add_node_to_edge(g[e], n)
     if route != "nodes_first":
         B.add_nodes_from([f[n] for n in nodes])
+    # attributes (weights) belong to the logical network too
+    from copy import deepcopy
+    B.set_node_attributes({f[n]: deepcopy(a) for n, a in m.nodes.items() if a})
+    B.set_edge_attributes({g[e]: deepcopy(a) for e, a in m.eattr.items() if a})
     return B
 
 
@@ -155,7 +160,8 @@ def evaluate(xgi, name, H, r):
     ('edges', dict) | ('nodesets', set of frozensets) | ('matrix', M, rows, cols, rowkind, colkind)"""
     if name == "degree":
         o = r.choice([None, 0, 1, 2])
-        return ("nodes", H.nodes.degree(order=o).asdict())
+        wt = r.choice([None, None, "weight", "w"])
+        return ("nodes", H.nodes.degree(order=o, weight=wt).asdict())
     if name == "size":
         d = r.choice([None, 1, 2])
         return ("edges", H.edges.size(degree=d).asdict())
@@ -216,7 +222,8 @@ def evaluate(xgi, name, H, r):
         elif which == "multiorder":
             M, rd = xgi.multiorder_laplacian(H, [1, 2], [1.0, 0.5], sparse=r.random() < 0.5, index=True)
         else:
-            M, rd = xgi.normalized_hypergraph_laplacian(H, sparse=r.random() < 0.5, index=True)
+            M, rd = xgi.normalized_hypergraph_laplacian(H, sparse=r.random() < 0.5, weighted=r.random() < 0.6,
+                                                        index=True)
         return ("matrix", M, rd, rd, "n", "n")
     if name == "intersection_profile":
         M, cd = xgi.intersection_profile(H, order=r.choice([None, 1]), sparse=r.random() < 0.5, index=True)
